@@ -27,7 +27,7 @@ ASSUMPTIONS = [
     "the 'value's length' of a non-string sensitive value is len(str(value)), the generalisation documented by to_tree",
     "item fields of typed scalar lists/dicts are not 'fields of a configuration'; only schema fields carry the flag",
 ]
-REQUIRED = ["mask:none", "mask:empty", "mask:one-char", "mask:multi", "out:tree", "out:document", "sensitive:nested", "sensitive:list-item",
+REQUIRED = ["sensitive:virtual", "mask:none", "mask:empty", "mask:one-char", "mask:multi", "out:tree", "out:document", "sensitive:nested", "sensitive:list-item",
             "sensitive:configtype", "sensitive:empty-value"]
 LEVEL_TEXT = (
     "Generated schemas/values/masks with a model-computed expected tree compared structurally with the masked "
@@ -59,7 +59,7 @@ def _mark(node, flags, counter):
                 counter[0] += 1
                 if f is not None and counter[0] % 3 == 0:
                     c = dict(c, sensitive=f)
-        elif c["kind"] not in ("virtual", "method"):
+        elif c["kind"] != "method":  # virtual fields can be marked sensitive, too
             f = flags[counter[0] % len(flags)]
             counter[0] += 1
             if f is not None:
@@ -117,9 +117,14 @@ def _expect(world, cfg, plain, mask, R, node=None, where="root"):
         key, kind = child["key"], child["kind"]
         if key not in plain:
             continue
-        if kind in ("virtual", "method"):
+        if kind == "method":
             continue
         value = getattr(cfg, key)
+        if kind == "virtual":
+            if _is_sensitive(child) and mask is not None:
+                out[key] = _masked(value, mask)
+                R.label("sensitive:virtual")
+            continue
         if kind in ("schema", "configtype"):
             if isinstance(value, cc.Config) and isinstance(plain[key], dict):
                 out[key] = _expect(world, value, plain[key], mask, R, child, "configtype" if kind == "configtype" or where == "configtype" else "nested")
